@@ -335,8 +335,22 @@ func c14Unmarshal(data []byte) string {
 		msg, err := capnp.Unmarshal(data)
 		a1 := totalAlloc()
 		// the property's predicate: memory proportional to the input (6 bytes per input byte
-		// for the segment table) plus the constant-size Message and arena header
-		aok := a1-a0 <= 6*uint64(len(data))+6*uint64(len(data))/8+1024
+		// for the segment table) plus the constant-size Message and arena header.
+		// runtime.MemStats.TotalAlloc is process-wide: an allocation of the runtime's own
+		// goroutines can land between the two readings.  Unmarshal is a pure function of its
+		// input, so the measurement is repeated and the smallest reading counts (an
+		// over-allocation of Unmarshal itself shows in every reading).
+		bound := 6*uint64(len(data)) + 6*uint64(len(data))/8 + 1024
+		delta := a1 - a0
+		for try := 0; try < 4 && delta > bound; try++ {
+			b0 := totalAlloc()
+			capnp.Unmarshal(data)
+			b1 := totalAlloc()
+			if b1-b0 < delta {
+				delta = b1 - b0
+			}
+		}
+		aok := delta <= bound
 		if err != nil {
 			return "err " + errClass(err, nil) + " " + bit(aok, "A")
 		}
